@@ -178,6 +178,45 @@ let handle cmd =
          let rec take k l = if k = 0 then ([], l) else (match l with [] -> ([], []) | x :: t -> let (a, b) = take (k - 1) t in (x :: a, b)) in
          let (a, b) = take (c + 1) l in a :: rows b in
        str_matrix (rows flat)) ^ (if ok then " | ok" else " | OUT-OF-BOUNDS")
+  | "cwpsk" ->
+    (* the kernels that fill the compact warping-paths array, as regenerated from dd_dtw.c (Gen_cwpsk.v); the struct
+       members are computed with the regenerated pieces of dtw_wps_parts (Gen_cwps.v), thresholds decoded as it does *)
+    let variant = nint () in
+    let window0 = z_of_int (nint ()) in
+    let md = nint () in let ms = nint () in let pen = nint () in
+    let p1b = z_of_int (nint ()) in let p1e = z_of_int (nint ()) in
+    let p2b = z_of_int (nint ()) in let p2e = z_of_int (nint ()) in
+    let use_pruning = nint () = 1 in let only_ub = nint () = 1 in
+    let return_dtw = nint () = 1 in let keep_int_repr = nint () = 1 in let psi_neg = nint () = 1 in
+    let nd = nint () in
+    let l1 = nint () in let f1 = rd_list (l1 * nd) (fun () -> z_of_int (nint ())) in
+    let l2 = nint () in let f2 = rd_list (l2 * nd) (fun () -> z_of_int (nint ())) in
+    let zl1 = z_of_int l1 and zl2 = z_of_int l2 and znd = z_of_int nd in
+    let sq x = z_of_int (x * x) in
+    let dec x = if x = 0 then Inf else Fin (if variant = 0 then sq x else z_of_int x) in
+    let p_max_step = dec ms and p_max_dist = dec md in
+    let p_penalty = Fin (if variant = 0 then sq pen else z_of_int pen) in
+    let ldiff = c_parts_ldiff zl1 zl2 in
+    let ldiffr = c_parts_ldiffr zl1 zl2 ldiff and ldiffc = c_parts_ldiffc zl1 zl2 ldiff in
+    let window = c_parts_window zl1 zl2 window0 in
+    let width = c_parts_width zl2 ldiff window0 window in
+    let ol = c_parts_overlap_left zl1 ldiffr window and orr = c_parts_overlap_right zl1 ldiffr window in
+    let ri1 = c_parts_ri1 zl1 ol orr and ri2 = c_parts_ri2 zl1 ol and ri3 = c_parts_ri3 zl1 ol orr in
+    let length = Z.mul (Z.add zl1 (z_of_int 1)) width in
+    let shift ri = c_wps_shift ri ri2 ri3 in
+    let cval r = (match fst r with RPlain v -> v | RSqrt v -> v) in
+    let ub_abs = if nd = 1 then cval (c_euclidean_distance_euclidean f1 zl1 f2 zl2) else cval (c_euclidean_distance_ndim_euclidean f1 zl1 f2 zl2 znd)
+    and ub_sq1 = (if nd = 1 then cval (c_euclidean_distance_squared f1 zl1 f2 zl2) else Inf)
+    and ub_sqn = cval (c_euclidean_distance_ndim_squared f1 zl1 f2 zl2 znd) in
+    let wps0 = List.init (int_of_z length) (fun _ -> Fin (z_of_int 777)) in
+    let ((r, wps), ok) =
+      if variant = 0 then
+        c_dtw_warping_paths_ndim Inf shift ub_sqn ub_sq1 wps0 f1 zl1 f2 zl2 return_dtw keep_int_repr psi_neg znd length
+          ldiff ldiffr ldiffc window width length ri1 ri2 ri3 p_max_step p_max_dist p_penalty Z0 only_ub p1b p1e p2b p2e use_pruning
+      else
+        c_dtw_warping_paths_ndim_euclidean shift ub_abs ub_abs wps0 f1 zl1 f2 zl2 return_dtw keep_int_repr psi_neg znd length
+          ldiff ldiffr ldiffc window width ri1 ri2 ri3 p_max_step p_max_dist p_penalty only_ub p1b p1e p2b p2e use_pruning in
+    (match r with RSqrt v -> "sqrt " ^ str_cost v | RPlain v -> "plain " ^ str_cost v) ^ " | " ^ str_row wps ^ (if ok then " | ok" else " | OUT-OF-BOUNDS")
   | "ced" ->
     (* the Euclidean routines of dd_ed.c as regenerated (Gen_ced.v) *)
     let variant = nint () in let nd = nint () in
